@@ -75,7 +75,7 @@ package excellent
 //@   ensures [empty_allows_none] (s.identifierTopLevels != nil && len(s.identifierTopLevels) == 0) ==> result0 == BODY
 // with a list, the token is an identifier exactly when the (lower-cased) top level is literally one of the listed names -
 // nothing looser (case folding, prefixes) lets text after an '@' be taken for an expression
-//@   ensures [listed_exactly] s.identifierTopLevels != nil ==> (result0 == IDENTIFIER <==> (exists k int :: 0 <= k && k < len(s.identifierTopLevels) && s.identifierTopLevels[k] == local(topLevel)))
+//@   checks [listed_exactly] s.identifierTopLevels != nil ==> (result0 == IDENTIFIER <==> (exists k int :: 0 <= k && k < len(s.identifierTopLevels) && s.identifierTopLevels[k] == local(topLevel)))
 // at each loop head one rune has just been read: at most one is left unread
 //@ loop 1
 //@   invariant inOK(s.input) && inputOK() && s.input.unreadCount <= 1
